@@ -654,8 +654,16 @@ def fam_typeof(rng: random.Random) -> List[list]:
             out += [[_nd("eq")] + ta + tb, [_nd("not")] + [_nd("eq")] + ta + tb, [_nd("and")] + ta + [_nd("eq")] + ta + tb,
                     [_nd("or")] + [_nd("eq")] + ta + tb + [_nd("isnone")] + b,
                     [_nd("ifexp")] + [_nd("eq")] + ta + tb + [_nd("false")] + [_nd("isnone")] + ta]
-    # chains with calls as operands
+    # list displays and calls with a plain argument after a starred one, made falsy by the enclosing expression
     i0, i2 = [_nd("int", 0)], [_nd("int", 2)]
+    for a in names:
+        for b in names + [i2]:
+            pl = [_nd("pairlen")] + a + b
+            st = [_nd("star_then")] + a + b
+            out += [[_nd("not")] + pl, [_nd("lt")] + pl + i0, [_nd("eq")] + pl + i0, [_nd("and")] + pl + [_nd("false")],
+                    [_nd("lt")] + st + i0, [_nd("not")] + [_nd("ident")] + st, [_nd("eq")] + st + [_nd("none")],
+                    [_nd("and")] + a + [_nd("lt")] + st + i0]
+    # chains with calls as operands
     for a in names[:2]:
         for b in names[:2]:
             ia, ib = [_nd("ident")] + a, [_nd("ident")] + b
